@@ -504,3 +504,16 @@ Lemma thm_object_near_refuted :
   side_ok_b 0 0 (full_box cex_main [] []) BottomRight (near_box cex_near p) = false /\
   boxes_overlap_b (near_box cex_near p) (mkbox 113 0 800 400) = true.
 Proof. vm_compute. repeat split; try reflexivity. left. reflexivity. Qed.
+
+(* the repaired boundingBox (fix.patch) counts shape-near shapes like every other shape: it is the pinned
+   function on [map plain main]; with it the unguarded statement holds *)
+Lemma thm_fixed_whole_diagram main pts ns n p margin tol :
+  has_shape_b (map plain main) = true -> forallb label_dims_ok_b ns = true ->
+  margin <= pad -> 0 <= tol ->
+  In (n, p) (combine ns (layout (map plain main) pts ns)) ->
+  side_ok_b margin tol (full_box main pts []) (n_key n) (near_box n p) = true /\
+  center_ok_b tol (full_box main pts []) (n_key n) (near_box n p) = true.
+Proof.
+  intros Hs Hd Hm Ht Hin. unfold full_box. rewrite app_nil_r.
+  split; [eapply thm_outside | eapply thm_centered]; eassumption.
+Qed.
